@@ -521,7 +521,9 @@ StatusGraphs(K) ==
 FamStatus(K, CH) ==
   UNION { {Scn(gr, <<BX(Roots(gr), jk[1], jk[2], [fail |-> f, printer |-> m, nstatus |-> ns])>>) :
               jk \in {1, 3, 4} \X {1, 0}, m \in {"pipe", "tty"}, ns \in {"", "<%s|%t|%r|%u|%f|%p> "}, f \in {<<>>} \cup Pick(CH, {FailRec(S, 1, FALSE) : S \in FailSets(gr)})}
-          \cup {Scn(gr, <<Build(Roots(gr), 2, 1), c, BX(Roots(gr), 3, 1, [printer |-> m])>>) : m \in {"pipe", "tty"}, c \in Pick(CH, {x \in Changes(gr) : x.op = "touch"})} :
+          \cup {Scn(gr, <<Build(Roots(gr), 2, 1), c, BX(Roots(gr), 3, 1, [printer |-> m])>>) : m \in {"pipe", "tty"}, c \in Pick(CH, {x \in Changes(gr) : x.op = "touch"})}
+          \* -v: the full command line instead of the description, no terminal tricks
+          \cup {Scn(gr, <<BX(Roots(gr), 3, 0, [fail |-> f, printer |-> m, verbose |-> TRUE])>>) : m \in {"pipe", "tty"}, f \in {<<>>} \cup Pick(1, {FailRec(S, 1, FALSE) : S \in FailSets(gr)})} :
           gr \in StatusGraphs(K) }
 
 (***************************************************************************)
